@@ -574,7 +574,10 @@ class MockCA:
 
     def authz_body(self, aid):
         a = self.authzs[aid]
-        b = {"identifier": a["identifier"], "status": a["status"], "expires": "2099-01-01T00:00:00Z",
+        # RFC 8555 7.1.6: an authorization has no "processing" state; it stays "pending" while its
+        # challenge is being validated
+        shown = "pending" if a["status"] == "processing" else a["status"]
+        b = {"identifier": a["identifier"], "status": shown, "expires": "2099-01-01T00:00:00Z",
              "challenges": [self.chall_body(c) for c in a["challs"]]}
         if self.o.get("challenge_order") == "reversed":
             b["challenges"].reverse()
